@@ -28,8 +28,7 @@ D_two == PQGH({<<3, 2>>})
 A_com == Com(SZ2, 2) \cup Vsshe({<<3, 2>>, <<5, 4>>}, {1, 2, 3})
 A_comq == Com(SZ2, 2) \cup Vsshe({<<5, 4>>}, {2, 3})
 N_comq == Com({<<5, 4>>}, 2) \cup Vsshe({<<5, 4>>}, {2})
-N_com == Com(SZ2, 2) \cup Vsshe({<<3, 2>>, <<5, 4>>}, {1, 2})
-D_com == Com({<<3, 2>>}, 2)
+N_com == Com(SZ2, 2) \cup Vsshe({<<5, 4>>}, {1, 2})
 A_com3 == Com({<<5, 4>>}, 3)
 None == {}
 E_one == {V("pqg", 3, 2, 0, 0, FALSE, 0)}
